@@ -135,9 +135,13 @@ KINDS["evens"] = dict(name="evens", ann="List[EVEN]", conf=[["list", []], ["list
 KINDS["resources"] = dict(name="resources", ann="Dict[str, Any]", conf=[["dict", []], ["dict", [["a", 1]]], ["dict", [["a", ["Uncopyable"]], ["b", ["list", [1]]]]]],
                           bad=[5], mut="{'a': [1]}", mut_spec=["dict", [["a", ["list", [1]]]]], item="resource", keys=["a", "b"], bad_keys=[1],
                           items=[1, ["Uncopyable"]], bad_items=[])
+# List[Inv]: elements carrying derived state (used by C06 only)
+KINDS["invs"] = dict(name="invs", ann="List[Inv]", conf=[["list", []], ["list", [["Inv", {"x": 1, "d": 9}]]]], bad=[["list", [5]]],
+                     mut="[Inv(x=5)]", mut_spec=["list", [["Inv", {"x": 5}]]], item="inv", items=[["Inv", {}], ["Inv", {"x": 1, "d": 9}]], bad_items=[5],
+                     nested_item="Inv")
 SCALAR_KINDS = ["int", "str", "float", "optint", "union", "literal", "bounded", "even"]
 COLLECTION_KINDS = ["nums", "words", "lits", "grids", "scores", "tags", "labels", "kids", "pairs", "units", "parts", "links", "marks"]
-SEQ_KINDS = ["nums", "words", "lits", "grids", "kids", "fkids", "units", "links", "evens"]
+SEQ_KINDS = ["nums", "words", "lits", "grids", "kids", "fkids", "units", "links", "evens", "invs"]
 MAP_KINDS = ["scores", "pairs", "parts", "resources"]
 SET_KINDS = ["tags", "labels", "marks"]
 ALL_KINDS = SCALAR_KINDS + COLLECTION_KINDS[:7] + ["leaf"] + COLLECTION_KINDS[7:]
@@ -218,6 +222,14 @@ class FLeaf:
     ys: List[int] = []
 
 Leaf(); Keyed("w"); FLeaf()
+
+@spec_class
+class Inv:
+    """an element whose attribute `d` is derived state: reset whenever `x` changes"""
+    x: int = 0
+    d: int = Attr(default=0, invalidated_by=["x"])
+
+Inv()
 
 class Uncopyable:
     """like a lock: refuses to be copied"""
@@ -514,6 +526,11 @@ class Env:
                 return self.KeyedList[self.Keyed, str]([self.mk(x) for x in spec[1]])
             if tag == "KeyedSet":
                 return self.KeyedSet[self.Keyed, str]([self.mk(x) for x in spec[1]])
+            if tag == "Inv":
+                inst = self.ns["Inv"](x=spec[1].get("x", 0))
+                if "d" in spec[1]:
+                    inst.d = spec[1]["d"]
+                return inst
             if tag == "Uncopyable":
                 return self.ns["Uncopyable"]()
             if tag == "KeyedSetK":
